@@ -34,6 +34,8 @@ def check(run):
     shared_state(R, 'C19.shared')
     R.rule('C19.choice', "proxy entry looked up under 'https' for wss and 'http' for ws; a falsy entry takes the direct "
                          'arm; the proxied arm reports the proxy URL to Connected', 5)
+    from .common import event_fields as _event_fields
+    _event_fields(R, 'C19.choice', ['Connected'])      # Connected reports the proxy it was given
     R.rule('C19.connect', 'connect to the proxy URL host/port (443/80 by proxy scheme, TLS by proxy scheme); CONNECT built '
                           'from websocket.host/port; exactly one sendall before the read loop', 6)
     R.rule('C19.gate', 'return only after a non-None response from ProxyParser.feed; the parser yields a response only '
@@ -75,7 +77,44 @@ def proxies_arg(R):
          'proxies is None)' % [U(n.ast.value) for n in st], func=q, node=st[0].ast)
 
 
+def _entry_tests(R):
+    """Whether to go through a proxy is decided by the configured entry itself (an empty mapping / None / '' disables
+    proxying, anything else is a proxy): every test computed from the looked-up entry tests the entry, not something
+    derived from it (a parsed host name is None for the common `host:port` spelling)."""
+    from .common import canon
+    n = 0
+    for fq, fi in sorted(R.prog.funcs.items()):
+        if fi.module.name != 'session' or fi.cls is None:
+            continue
+        if 'proxies' not in U(fi.node):
+            continue
+        g = R.cfg(fq)
+        looks = [(m, c) for m in g.live_nodes() for c in m.calls
+                 if isinstance(c.func, ast.Attribute) and c.func.attr == 'get'
+                 and canon(R, g, m, c.func) == 'self.websocket.proxies.get']
+        for (m, c) in looks:
+            ltxt = canon(R, g, m, c)
+            for t in g.live_nodes():
+                if t.kind != 'test':
+                    continue
+                e = t.ast
+                while isinstance(e, ast.UnaryOp) and isinstance(e.op, ast.Not):
+                    e = e.operand
+                txt = canon(R, g, t, e)
+                if ltxt not in txt:
+                    continue
+                n += 1
+                ok = txt in (ltxt, ltxt + ' is None', ltxt + ' is not None')
+                R.ob('C19.choice', 'the proxy decision tests the configured entry', ok,
+                     '%s decides on `%s`, which is derived from the configured proxy entry but is not the entry: a configured '
+                     'proxy for which this is false (a `host:port` URL has no parsed host name) is silently bypassed and the '
+                     'handshake goes straight to the target' % (fq, U(t.ast)), func=fi, node=t.ast,
+                     construct='proxy decision %s' % U(t.ast))
+    need(n >= 1, 'no test on the configured proxy entry found in session.py')
+
+
 def choice(R):
+    _entry_tests(R)
     q = S + '._connect'
     g = R.cfg(q)
     rd = ReachingDefs(g)
